@@ -863,6 +863,7 @@ Error ARMRAPass::emit_swap(RAWorkReg* a_reg, uint32_t a_phys_id, RAWorkReg* b_re
 
 Error ARMRAPass::emit_load(RAWorkReg* w_reg, uint32_t dst_phys_id) noexcept {
   Reg dst_reg(w_reg->signature(), dst_phys_id);
+  ASMJIT_PROPAGATE(ensure_stack_slot(w_reg));
   BaseMem src_mem(work_reg_as_mem(w_reg));
 
   const char* comment = nullptr;
@@ -879,6 +880,7 @@ Error ARMRAPass::emit_load(RAWorkReg* w_reg, uint32_t dst_phys_id) noexcept {
 }
 
 Error ARMRAPass::emit_save(RAWorkReg* w_reg, uint32_t src_phys_id) noexcept {
+  ASMJIT_PROPAGATE(ensure_stack_slot(w_reg));
   BaseMem dst_mem(work_reg_as_mem(w_reg));
   Reg src_reg(w_reg->signature(), src_phys_id);
 
